@@ -118,6 +118,8 @@ def make_table(spec):
         elif ex == 'timestamp':
             # large magnitude, small relative spread (epoch seconds within an hour): NOT a constant column
             X = np.column_stack([X, 1.7e9 + 300.0 * Z[:, j % Z.shape[1]] + 40.0 * rng.standard_normal(n)])
+        elif ex == 'int_constant':
+            X = np.column_stack([X, np.zeros(n)])     # replaced by an int64 column below
         elif ex == 'tiny_values':
             X = np.column_stack([X, 2.5e-9 * (1 + 0.2 * Z[:, j % Z.shape[1]])])
         elif ex == 'sum':
@@ -149,6 +151,11 @@ def make_table(spec):
         df.index = ['r%d' % i for i in range(n)]
     elif ik == 'duplicated':
         df.index = np.arange(n) // 2
+    for pos, ex in enumerate(spec.get('extras', [])):
+        if ex == 'int_constant':
+            # id-like integer constant, also beyond float64's exact-integer range
+            val = [7, 2 ** 53 + 1, -(2 ** 60) - 1, 1234567890123456789][int(rng.integers(4))]
+            df[names[d + pos]] = np.full(n, val, dtype='int64')
     for c, kind in zip(names, spec['marginals']):
         if kind == 'integer' and spec.get('int_dtype'):
             df[c] = df[c].astype('int64')
